@@ -20,6 +20,8 @@ REGISTRY = {
     "C02": ("vverif.checks_algebra", "check_c02"),
     "C13": ("vverif.checks_algebra", "check_c13"),
     "C05": ("vverif.checks_types", "check_c05"),
+    "C06": ("vverif.checks_names", "check_c06"),
+    "C14": ("vverif.checks_names", "check_c14"),
     "C09": ("vverif.checks_laws", "check_c09"),
     "C10": ("vverif.checks_laws", "check_c10"),
     "C11": ("vverif.checks_laws", "check_c11"),
